@@ -786,6 +786,17 @@ func run(c *Ctx) error {
 			st.Count("model_evaluated")
 			st.Count("builder:" + b.name)
 			check(b.prog, "builder:"+b.name, true, true)
+			// the same instructions with every data push re-encoded non-minimally (PUSHDATA1/2/4):
+			// such a program is not the builder's output, so a recogniser that accepts it must
+			// still satisfy the converse-shape rule of observe()
+			if k < 40 && len(h) > 0 && len(h) <= 75 {
+				for enc := 1; enc <= 3; enc++ {
+					if v := reencodePushes(b.prog, enc); v != nil {
+						check(v, "reencoded-push", true, true)
+						st.Count("reencoded-push")
+					}
+				}
+			}
 		}
 		builderOracle(st, h)
 	}
@@ -879,6 +890,42 @@ func builderOracle(st *Stats, h []byte) {
 			st.Fail("class=recognisers-overlap: a built program is recognised as two shapes", desc)
 		}
 	}
+}
+
+// reencodePushes re-writes every non-empty data push of p with PUSHDATA1 (enc 1), PUSHDATA2 (2) or
+// PUSHDATA4 (3); nil when p does not parse or has no such push.
+func reencodePushes(p []byte, enc int) []byte {
+	pr := safeParse(p)
+	if pr.panicked || pr.err != nil {
+		return nil
+	}
+	var out []byte
+	changed := false
+	for _, in := range pr.insts {
+		if (in.Op >= vm.OP_DATA_1 && in.Op <= vm.OP_DATA_75) || in.Op == vm.OP_PUSHDATA1 || in.Op == vm.OP_PUSHDATA2 || in.Op == vm.OP_PUSHDATA4 {
+			n := len(in.Data)
+			switch enc {
+			case 1:
+				out = append(out, byte(vm.OP_PUSHDATA1), byte(n))
+			case 2:
+				out = append(out, byte(vm.OP_PUSHDATA2), byte(n), byte(n>>8))
+			default:
+				out = append(out, byte(vm.OP_PUSHDATA4), byte(n), byte(n>>8), byte(n>>16), byte(n>>24))
+			}
+			out = append(out, in.Data...)
+			changed = true
+			continue
+		}
+		// copy the instruction's own bytes
+		out = append(out, byte(in.Op))
+		if isJump(in) {
+			out = append(out, in.Data...)
+		}
+	}
+	if !changed {
+		return nil
+	}
+	return out
 }
 
 func min(a, b int) int {
